@@ -35,6 +35,8 @@ EXPLANATION = ("Sparse conditional constant propagation of every material factor
 def run(ctx):
     d1(ctx)
     d1_hardening(ctx)
+    from . import units
+    units.run(ctx, "D1/T8-dimensional-homogeneity", {m for (m, f, k) in mt.MODELS if k == "solid" and not m.endswith("J2Plastic") and "Visco" not in m}, min_scenarios=3)
     frames.run_frames(ctx, "D2/T9-frames", which="C08")
     from . import tensorid
     tensorid.run_identities(ctx, "D2/T7-tensor-helper-identities", ["inv", "detpIm1", "det", "deviator", "sym", "norm_of_deviator_squared"])
@@ -142,6 +144,8 @@ def variants(repo):
     P = "optimism/phasefield/PhaseFieldThreshold.py"
     return [
         Variant("forget + I (seth hill)", J, sub("    F = dispGrad + np.identity(3)\n    C = F.T@F\n    strain = (TensorMath.pow_symm", "    C = dispGrad.T@dispGrad\n    strain = (TensorMath.pow_symm"), "D1/SCCP-rest-state"),
+        Variant("Gent: log argument normalised by a modulus", G, sub("np.log(1. - (I1_bar - 3.) / props[PROPS_JM])", "np.log(1. - (I1_bar - 3.) / props[PROPS_MU])"), "D1/T8-dimensional-homogeneity"),
+        Variant("Neohookean: modulus squared", N, sub_in_func("_adagio_neohookean", "0.5*props[PROPS_MU]*(I1Bar - 3.0)", "0.5*props[PROPS_MU]*props[PROPS_MU]*(I1Bar - 3.0)"), "D1/T8-dimensional-homogeneity"),
         Variant("J**(-1/3)", N, sub_in_func("_adagio_neohookean", "np.power(J, -2.0/3.0)", "np.power(J, -1.0/3.0)"), "D1/SCCP-rest-state"),
         Variant("missing -3", N, sub_in_func("_adagio_neohookean", "(I1Bar - 3.0)", "(I1Bar)"), "D1/SCCP-rest-state"),
         Variant("volumetric term not stationary", G, sub("(0.5*J**2 - 0.5 - np.log(J))", "(0.5*J**2 - 0.5 - 2*np.log(J))"), "D1/SCCP-rest-state"),
